@@ -87,6 +87,7 @@ Record exch := mkExch {
 Definition exch_ok (e : env) (x : exch) : bool :=
   match server_respond e (x_coll x) (x_type x) (x_fixed x) (x_chosen x) (x_val x), x_resp x with
   | SPanic, None => match x_client x with ONoResp => true | _ => false end
+  | SFault, None => match x_client x with OErr => true | _ => false end
   | SResp h b, Some (h', b') =>
     (x_tampered x || oname_eqb h h') && val_eqb b b' &&
     match client_decode e (x_type x) (x_fixed x) h' b', x_client x with
